@@ -27,7 +27,7 @@ def rule(rid, props, floor=1, tier="quick"):
 class Inst:
     """One obligation (rule instance)."""
 
-    __slots__ = ("rule", "key", "ok", "msg", "loc", "detail", "props")
+    __slots__ = ("rule", "key", "ok", "msg", "loc", "detail", "props", "optional")
 
     def __init__(self, key, ok, msg="", loc=None, detail=None):
         self.rule = None
@@ -37,6 +37,7 @@ class Inst:
         self.loc = loc
         self.detail = detail
         self.props = None  # optional: the subset of the rule's properties this obligation bears on
+        self.optional = False  # True: the construct need not exist (its absence is not reported by the required-keys check)
 
     def full_key(self):
         return "%s|%s" % (self.rule, self.key)
@@ -70,7 +71,9 @@ def required_keys():
 # A property whose statement presupposes another one is checked with that one's rules as well: the spans of C02 and
 # the equivalences of C20 are about the same match relation as C01 - a rule that bears on which strings match bears
 # on which spans are reported and on whether two spellings agree.
-IMPLIED = {"C02": ("C01",), "C20": ("C01",)}
+# Likewise what `$N` inserts (C15) and what `\N` compares with (C19) is the text of group N: the rules about how
+# groups are recorded, cleared and restored (C03) bear on both.
+IMPLIED = {"C02": ("C01",), "C20": ("C01",), "C15": ("C03",), "C19": ("C03",)}
 
 
 def scope(prop):
